@@ -30,8 +30,22 @@ FORMS = {
     "dyn_fn": "Box<dyn Fn({T}) -> u8>",
     "dyn_fn_ret": "Box<dyn Fn() -> {T}>",
     "dyn_assoc": "Box<dyn Iterator<Item = {T}>>",
+    # forms added after the mutation-gap diagnostic (tools/mutation_gaps.py): mixed generic / non-generic components, and
+    # non-generic types of the same syntactic kinds (they must get no bound at all)
+    "fn_mixed": "fn(u8, {T}) -> u8",
+    "dyn_two": "Box<dyn Tr2<{T}> + Send>",
+    "dyn_two_rev": "Box<dyn Send + Tr2<{T}>>",
+    "dyn_fn_mixed": "Box<dyn Fn(u8, {T}) -> u8>",
+    "tuple_mixed": "(u8, {T})",
+    "plain_fn": "fn(u8)",
+    "plain_dyn_fn": "Box<dyn Fn(u8)>",
+    "plain_path": "::core::primitive::u8",
+    "plain_generic_path": "::core::option::Option<u8>",
 }
-NEW_FORMS = ("slice_ref", "paren", "fn_ret", "dyn_fn", "dyn_fn_ret", "dyn_assoc")
+CORE_FORMS = ("T", "plain", "ref", "vec")
+NONGENERIC = ("plain", "plain_fn", "plain_dyn_fn", "plain_path", "plain_generic_path")
+NEW_FORMS = ("slice_ref", "paren", "fn_ret", "dyn_fn", "dyn_fn_ret", "dyn_assoc", "fn_mixed", "dyn_two", "dyn_two_rev", "dyn_fn_mixed", "tuple_mixed",
+             "plain_fn", "plain_dyn_fn", "plain_path", "plain_generic_path")
 TRAITS = {"Display": "", "Debug": "?", "LowerHex": "x", "Pointer": "p"}
 ATTR = {"Display": "display", "Debug": "debug", "LowerHex": "lower_hex"}
 STYLES = ["none", "named", "positional", "alias", "expr_bound"]
@@ -65,16 +79,19 @@ def where_preds(out):
             prev = ch
     if cur.strip():
         preds.append(cur)
-    return {nows(p) for p in preds if p.strip() and re.search(r"\bT\d\b", p)}
+    return {nows(p) for p in preds if p.strip()}
 
 
 class Field:
     def __init__(self, i, form, style, tr, named):
         self.i, self.form, self.style, self.tr = i, form, style, tr
         self.param = "T%d" % i
-        self.generic = form != "plain"
+        self.generic = form not in NONGENERIC
         self.ty = FORMS[form].replace("{T}", self.param)
         self.name = ("f%d" % i) if named else ("_%d" % i)
+        if named == "raw":   # raw-identifier field names: `r#type` in Rust code, `type` inside a format literal
+            self.name = ("r#type", "r#fn", "r#struct")[i]
+        self.lname = self.name[2:] if self.name.startswith("r#") else self.name
 
 
 def build_attr(fields, user_where_ok=True):
@@ -85,7 +102,7 @@ def build_attr(fields, user_where_ok=True):
         if f.style == "none":
             continue
         if f.style == "named":
-            lit.append("{%s%s}" % (f.name, sp))
+            lit.append("{%s%s}" % (f.lname, sp))
         elif f.style == "positional":
             lit.append("{%d%s}" % (len(args), sp))
             args.append(f.name)
@@ -95,7 +112,7 @@ def build_attr(fields, user_where_ok=True):
         elif f.style == "shadow_expr":
             # an alias named like the field, bound to an expression that is not an identifier: the placeholder denotes the
             # argument, not the field, so the field's type gets no bound
-            lit.append("{%s%s}" % (f.name, sp))
+            lit.append("{%s%s}" % (f.lname, sp))
             args.append("%s = &7u8" % f.name)
             continue
         elif f.style == "expr_bound":
@@ -201,8 +218,16 @@ def holds(form, tr, x_fmt):
         return tr in ("Debug", "Pointer")
     if form == "phantom":
         return tr == "Debug"
-    if form in ("dyn", "dyn_fn", "dyn_fn_ret", "dyn_assoc"):
+    if form in ("dyn", "dyn_fn", "dyn_fn_ret", "dyn_assoc", "dyn_two", "dyn_two_rev", "dyn_fn_mixed", "plain_dyn_fn"):
         return False
+    if form in ("plain_path",):
+        return True
+    if form == "plain_generic_path":
+        return tr == "Debug"
+    if form in ("fn_mixed", "plain_fn"):
+        return tr in ("Debug", "Pointer")
+    if form == "tuple_mixed":
+        return x_fmt and tr == "Debug"
     if form == "fn_ret":
         return tr in ("Debug", "Pointer")
     if form == "paren":
@@ -225,16 +250,18 @@ def run(chk, tier):
     reqs, metas = [], []
     traits_cycle = ["Display", "Debug", "LowerHex", "Pointer"]
     for derive in ("Display", "LowerHex", "Debug"):
-        for named in (False, True):
-            for n in (1, 2, 3):
+        for named in (False, True, "raw"):
+            for n in ((1, 2, 3) if named != "raw" else (1, 2)):
                 six = ("T", "ref", "vec", "plain", "qassoc_arg", "fnptr")
                 form_sets = list(itertools.product(forms, repeat=n)) if n <= 2 else (
                     list(itertools.product(six, repeat=n)) if thorough else
                     [fs for fs in itertools.product(forms, repeat=n) if fs[0] in ("T", "vec", "plain", "assoc") and fs[2] in ("ref", "plain", "wrapper", "phantom")])
                 style_sets = list(itertools.product(STYLES + (["shadow_expr"] if n <= 2 else []), repeat=n))
                 for fs in form_sets:
-                    if n == 2 and not thorough and fs[0] in NEW_FORMS and fs[1] in NEW_FORMS:
+                    if named == "raw" and n == 2 and not (fs[0] in CORE_FORMS and fs[1] in CORE_FORMS):
                         continue
+                    if n == 2 and not thorough and (fs[0] in NEW_FORMS or fs[1] in NEW_FORMS) and not (fs[0] in CORE_FORMS or fs[1] in CORE_FORMS):
+                        continue   # quick: a later-added form is paired with the four core forms only
                     for ss in style_sets:
                         if all(s == "none" for s in ss) and n > 1:
                             pass
@@ -275,6 +302,8 @@ def run(chk, tier):
     for named in (False, True):
         for n in (1, 2, 3):
             for fs in itertools.product(forms if n <= 2 else ([f for f in forms if f not in NEW_FORMS] if thorough else ["T", "vec", "plain", "ref", "assoc"]), repeat=n):
+                if n == 2 and not thorough and (fs[0] in NEW_FORMS or fs[1] in NEW_FORMS) and not (fs[0] in CORE_FORMS or fs[1] in CORE_FORMS):
+                    continue
                 opts = []
                 for i in range(n):
                     o = [None, "skip"]
@@ -320,14 +349,14 @@ def run(chk, tier):
     total_reqs = len(reqs)
     B = 100000
     for lo in range(0, total_reqs, B):
-      res = svc(reqs[lo:lo + B])
+      res = svc([dict(q, where=True) for q in reqs[lo:lo + B]])
       for (item, model, kind), r in zip(metas[lo:lo + B], res):
           chk.count(states=1, transitions=1)
           if r["k"] != "ok":
               chk.outcome("A-%s/%s" % (r["k"], kind))
               chk.violation("in-process: supported generic input %s (%s)" % (r["k"], kind), item, r.get("msg", "")[:300] + " " + r.get("loc", ""))
               continue
-          got = where_preds(r["out"])
+          got = {nows(p) for p in r["where"]}
           if got == model:
               chk.outcome("A-agree/%s/%d-bounds" % (kind, len(model)))
               continue
@@ -336,7 +365,7 @@ def run(chk, tier):
           feat = "field-attr-on-non-generic-field" if kind == "Debug/fields" and missing and re.search(r"#\[debug\(\"[^\"]*\"\)\] (?:f\d: )?u8", item) else ""
           chk.outcome("A-%s/%s" % (what, kind))
           chk.violation("in-process: %s bounds (%s) %s" % (what, kind, feat), item, "model: %s\nexpansion: %s" % (sorted(model), sorted(got)))
-    chk.part("A_inprocess", expansions=total_reqs, forms=forms, styles=STYLES, levels=["struct", "variant", "shared default", "shared wrapping", "implicit single field (struct, variant, variant under a wrapping shared format)", "Debug field attributes / skip / implicit"],
+    chk.part("A_inprocess", expansions=total_reqs, forms=forms, styles=STYLES, naming=["positional", "named", "raw-identifier names (1 field: all forms; 2 fields: core forms)"], levels=["struct", "variant", "shared default", "shared wrapping", "implicit single field (struct, variant, variant under a wrapping shared format)", "Debug field attributes / skip / implicit"],
              oracle="where-clause of the real expansion == model set {type of each referenced generic field : trait of the referencing placeholder} U bound(..) predicates")
     for (item, model, kind) in metas[:: max(1, len(metas) // 6)][:6]:
         chk.sample({"item": item, "expected_where_predicates": sorted(model)})
